@@ -277,6 +277,18 @@ func (p *prover) eval0(v ssa.Value, b *ssa.BasicBlock, depth int) lin {
 				}
 			}
 		}
+		// rewind counter: phi(init, self-1) where the decrement is guarded by self > 0 (self >= 1, self != 0 for a
+		// non-negative entry value): the variable stays within [0, init]
+		if i, ok := p.rewindCounter(x); ok && depth < 6 {
+			init := p.eval(x.Edges[i], x.Block().Preds[i], depth+1)
+			if init.ok && (init.nonneg || init.lo >= 0) {
+				r := lin{base: init.base, lo: -inf, hi: init.hi, ok: true, nonneg: true}
+				if init.base == nil {
+					r.lo = 0
+				}
+				return r
+			}
+		}
 		// join
 		r := lin{lo: inf, hi: -inf, ok: true, nonneg: true}
 		for i, e := range x.Edges {
@@ -1054,9 +1066,37 @@ func (p *prover) prove(s site) (bool, string) {
 	b := s.in.Block()
 	llo, _ := p.lenBounds(s.X, b)
 	root := lenRoot(s.X)
-	checkLT := func(v ssa.Value, strict bool) (bool, string) {
+	var checkAt func(v ssa.Value, strict bool, b *ssa.BasicBlock, depth int) (bool, string)
+	checkLT := func(v ssa.Value, strict bool) (bool, string) { return checkAt(v, strict, b, 0) }
+	checkAt = func(v ssa.Value, strict bool, b *ssa.BasicBlock, depth int) (bool, string) {
 		if v == nil {
 			return true, ""
+		}
+		// a rewind counter J = phi(init, J-1) stays within [0, init]; J-1 behind J > 0 within [0, init-1]: bounded by
+		// what bounds init on the edge entering the loop (the length of a value does not change in between)
+		if depth < 3 {
+			if ph, ok := v.(*ssa.Phi); ok {
+				if i, ok := p.rewindCounter(ph); ok {
+					if init := p.eval(ph.Edges[i], ph.Block().Preds[i], 0); init.ok && (init.nonneg || init.lo >= 0) {
+						if ok, _ := checkAt(ph.Edges[i], strict, ph.Block().Preds[i], depth+1); ok {
+							return true, ""
+						}
+					}
+				}
+			}
+			if bo, ok := v.(*ssa.BinOp); ok && bo.Op == token.SUB {
+				if ph, isPh := bo.X.(*ssa.Phi); isPh {
+					if k, isC := constInt(bo.Y); isC && k == 1 && p.positiveAt(ph, bo.Block()) {
+						if i, ok := p.rewindCounter(ph); ok {
+							if init := p.eval(ph.Edges[i], ph.Block().Preds[i], 0); init.ok && (init.nonneg || init.lo >= 0) {
+								if ok, _ := checkAt(ph.Edges[i], false, ph.Block().Preds[i], depth+1); ok {
+									return true, ""
+								}
+							}
+						}
+					}
+				}
+			}
 		}
 		e := p.eval(v, b, 0)
 		if !e.ok {
@@ -1116,6 +1156,44 @@ func (p *prover) prove(s site) (bool, string) {
 		return false, w
 	}
 	return checkLT(s.high, false)
+}
+
+// rewindCounter: x = phi(init, x-1) whose decrement runs only behind x > 0 (x >= 1, x != 0): returns the index of
+// the entry edge.
+func (p *prover) rewindCounter(x *ssa.Phi) (int, bool) {
+	if len(x.Edges) != 2 {
+		return 0, false
+	}
+	for i := 0; i < 2; i++ {
+		dec, okb := x.Edges[1-i].(*ssa.BinOp)
+		if !okb || dec.Op != token.SUB || dec.X != ssa.Value(x) {
+			continue
+		}
+		if st, ok := constInt(dec.Y); !ok || st != 1 {
+			continue
+		}
+		if p.positiveAt(x, dec.Block()) {
+			return i, true
+		}
+	}
+	return 0, false
+}
+
+// positiveAt: a branch dominating b established x > 0.
+func (p *prover) positiveAt(x ssa.Value, b *ssa.BasicBlock) bool {
+	for _, f := range p.facts(b) {
+		op := f.cond.Op
+		if !f.truth {
+			op = negate(op)
+		}
+		if f.cond.X != x {
+			continue
+		}
+		if k, ok := constInt(f.cond.Y); ok && (op == token.GTR && k >= 0 || op == token.GEQ && k >= 1 || op == token.NEQ && k == 0) {
+			return true
+		}
+	}
+	return false
 }
 
 func paramIndex(fn *ssa.Function, v ssa.Value) int {
